@@ -71,6 +71,7 @@ PLAN = {
             seq("slice", "owned", "from an owned Vec (capacity == len, len + 1)", "3 elements; all 16 two-step sequences"),
             seq("slice", "shared", "from an Arc<[T]> (2 ctors)", "3 elements; all 16 two-step sequences"),
             seq("slice", "owned", "from an EMPTY owned Vec that still owns a buffer (len 0, capacity 1)", "0 elements; all 16 two-step sequences", "quick", "_empty", 900),
+            H("c14_slice_shared_overaligned", "Arc<[T]> with align_of::<T>() == 32 (counts at a different offset from the data): from_shared / clone / drop / into_owned keep the strong count exact", kind="bounded", bound="one element, <= 2 clones", covers=1, timeout=900, args=LEAK),
             H("c14_str_alias_eq", "two Cow<str> borrowed from one buffer with lengths la, lb <= 3: ==, cmp == Equal, partial_cmp follow the content (equal iff la == lb), not the start address", kind="bounded", bound="prefixes of \"abc\", both borrowed constructors", covers=2),
             # ---- thorough
             seq("str", "borrowed", "from a borrow", "content in {'', 'a'}; all 16 two-step sequences", "thorough", "_all", 900),
